@@ -1056,6 +1056,9 @@ func c11RunMetaRow(c *c11Case) string {
 		cache.Put(region.NewInfo(1, nil, []byte("t"), []byte("t,,1.aaaa."), nil, []byte("a")))
 		cache.Put(reg)
 		cache.Get(gohbase.VerifSearchKey([]byte("t"), []byte("b")))
+		cache.Get(gohbase.VerifSearchKey(gohbase.VerifFullyQualifiedTable(reg), reg.StartKey()))
+		cache.GetOverlaps(reg)
+		cache.Put(region.NewInfo(9, nil, []byte("t"), []byte("t,a,9.bbbb."), []byte("a"), []byte("c")))
 		cache.Del(reg)
 		return "ok"
 	}()
